@@ -65,6 +65,12 @@ def cases(tier):  # noqa: F811
     cs.append(dict(name="order.n2.w3", fn=h_order, params=dict(n=2, wrappers=3), profile="fp", budget_s=900))
     cs.append(dict(name="selection_keeps_best.fp.n2.k1", fn=h_select, params=dict(n=2, k_elites=1), profile="fp", budget_s=900))
     cs.append(dict(name="selection_keeps_best.real.n3.k1", fn=h_select, params=dict(n=3, k_elites=1), profile="real", budget_s=1500, weight=10))
+    from .c02 import h_engine
+    for e in ("sea", "sea-xover", "ga", "sea-adaptive"):
+        cs.append(dict(name=f"engine_keeps_best.{e}.n2", fn=h_engine, params=dict(engine=e, n=2), profile="fp", budget_s=1800, oblig_timeout_s=120,
+                       abstract_mul=True, weight=10))
+    cs.append(dict(name="engine_keeps_best.de.n4", fn=h_engine, params=dict(engine="de", n=4), profile="fp", budget_s=1800, oblig_timeout_s=120,
+                   abstract_mul=True, weight=30))
     from .c03 import h_prefix
     cs.append(dict(name="budget_prefix.sym", fn=h_prefix, params=dict(nmax=40 if tier == "quick" else 100), profile="fp", budget_s=2400, max_paths=100000,
                    weight=40))
